@@ -11,7 +11,7 @@ use crate::exch::{ExchCfg, Gate, Menu, ServerMsg};
 use crate::exch_run::{replay_exchange, run_exchanges};
 use crate::refmodel::chunked::{encode, ChunkSpec};
 
-pub const RULE: &str = "codings by construction: chunks of size {1,2,3} x payload pattern {letters, starts with CRLF, ends with CR, starts with LF} x size spelling {plain, leading zero, extension}, last-chunk spelling {0,000,0;x}, 0..2 trailers, size lines of exactly 20 and 19 bytes (the decoder's documented limit), a 130-byte trailer line, trailer field names that look like a status line / last chunk / framing header (HTTP2-Settings, HTTP, 0, Content-Length, Transfer-Encoding), obs-text in quoted chunk-extension values and trailer values, always followed by 'HTTP/1.1 2' which must stay unconsumed; quick: all 1-chunk codings and a pairwise-reduced family of 2-chunk codings, thorough: all codings of <=2 chunks and a reduced family of 3-chunk codings; plus single chunks of size 15,16,255,256,4095,4096 in lower/upper/mixed-case hex with and without leading zero. Per coding and boundary-stop {off,on} the COMPLETE graph over (dechunker state, consumed, arrived): 1-byte arrivals, read with buffers {0,1,2,3,4,large} at every window (large chunks: arrival cuts at every size-line/tail position and data end -1/0/+1/+2, buffers {0,size-1,size,size+1,large} and {1,4} up to 256). distinct = distinct (coding, stop mode, final observation)";
+pub const RULE: &str = "codings by construction: chunks of size {1,2,3} x payload pattern {letters, starts with CRLF, ends with CR, starts with LF} x size spelling {plain, leading zero, extension}, last-chunk spelling {0,000,0;x}, 0..2 trailers, size lines of exactly 20 and 19 bytes (the decoder's documented limit), a 130-byte trailer line, trailer field names that look like a status line / last chunk / framing header (HTTP2-Settings, HTTP, 0, Content-Length, Transfer-Encoding), obs-text in quoted chunk-extension values and trailer values, the coding announced by Transfer-Encoding spellings {chunked, Chunked, 'gzip, chunked', 'chunked,', 'gzip,chunked, ,', ', chunked', 'chunked ,TAB'}, always followed by 'HTTP/1.1 2' which must stay unconsumed; quick: all 1-chunk codings and a pairwise-reduced family of 2-chunk codings, thorough: all codings of <=2 chunks and a reduced family of 3-chunk codings; plus single chunks of size 15,16,255,256,4095,4096 in lower/upper/mixed-case hex with and without leading zero. Per coding and boundary-stop {off,on} the COMPLETE graph over (dechunker state, consumed, arrived): 1-byte arrivals, read with buffers {0,1,2,3,4,large} at every window (large chunks: arrival cuts at every size-line/tail position and data end -1/0/+1/+2, buffers {0,size-1,size,size+1,large} and {1,4} up to 256). distinct = distinct (coding, stop mode, final observation)";
 
 const PATTERNS: [&[u8]; 4] = [b"abc", b"\r\nx", b"xy\r", b"\nzz"];
 
@@ -36,7 +36,12 @@ fn mk(chunks: &[ChunkSpec], last: &str, ntrail: usize, stop: bool, menu_kind: u8
 }
 
 fn mk_coding(c: crate::refmodel::chunked::Coding, first_size: usize, stop: bool, menu_kind: u8) -> Arc<ExchCfg> {
-    let msg = RespMsg { version: "1.1".into(), status: 200, reason: "OK".into(), fields: vec![("Transfer-Encoding".into(), b"chunked".to_vec())], body: RespBody::Chunked { coding: c.bytes.clone(), payload: c.payload.clone(), ranges: c.data_ranges.clone() } };
+    mk_coding_te(c, first_size, stop, menu_kind, "chunked")
+}
+
+/// `te`: the spelling of the Transfer-Encoding value announcing the chunked coding.
+fn mk_coding_te(c: crate::refmodel::chunked::Coding, first_size: usize, stop: bool, menu_kind: u8, te: &str) -> Arc<ExchCfg> {
+    let msg = RespMsg { version: "1.1".into(), status: 200, reason: "OK".into(), fields: vec![("Transfer-Encoding".into(), te.as_bytes().to_vec())], body: RespBody::Chunked { coding: c.bytes.clone(), payload: c.payload.clone(), ranges: c.data_ranges.clone() } };
     let head_len = msg.head_bytes().len();
     let mut menu = Menu::default_large();
     menu.stop_boundary = stop;
@@ -147,6 +152,10 @@ pub fn build(tier: Tier) -> Vec<Arc<ExchCfg>> {
         let tv = |t: &[&[u8]]| -> Vec<Vec<u8>> { t.iter().map(|x| x.to_vec()).collect() };
         for trailers in [tv(&[b"HTTP2-Settings: x"]), tv(&[b"HTTP: y", b"T1: v"]), tv(&[b"0: z"]), tv(&[b"Content-Length: 5", b"Transfer-Encoding: chunked"]), tv(&[b"T: caf\xe9 \xff"])] {
             out.push(mk_coding(crate::refmodel::chunked::encode_bytes(&[(b"3".to_vec(), b"abc".to_vec())], b"0", &trailers), 3, stop, 0));
+        }
+        // spellings of the header that announces the coding (empty list elements are ignored, RFC 9110 5.6.1)
+        for te in ["Chunked", "gzip, chunked", "chunked,", "gzip,chunked, ,", ", chunked", "chunked ,\t"] {
+            out.push(mk_coding_te(crate::refmodel::chunked::encode_bytes(&[(b"3".to_vec(), b"abc".to_vec())], b"0", &[b"T1: v".to_vec()]), 3, stop, 0, te));
         }
         for (line, last) in [(&b"3;n=\"caf\xe9\""[..], &b"0"[..]), (&b"3;n=\xc3\xa9"[..], &b"0;m=\"\xff\""[..])] {
             out.push(mk_coding(crate::refmodel::chunked::encode_bytes(&[(b"2".to_vec(), b"\r\n".to_vec()), (line.to_vec(), b"abc".to_vec())], last, &[]), 2, stop, 0));
